@@ -184,29 +184,33 @@ def locSlice (s : List (NPt Pos)) (offset : Nat) (hi : Int) : List (NPt Pos) :=
 def shiftPairs (o1 o2 : Nat) (l : List (Nat × Nat)) : List (Nat × Nat) :=
   l.map (fun p => (p.1 + o1, p.2 + o2))
 
+/-- one group: `_bin_pairs` + `_spatial_search_bin`.  `pos` is the row at which the group
+starts (content of `chunk1`), while `offset1` is recomputed from the label by
+`searchsorted` exactly as `_bin_pairs` does. -/
+def binStep (T : TreeFn Pos α) (shuf : Nat → List Pos → List Nat) (mf : Nat) (mi : Int) (r : α)
+    (P S : List (NPt Pos)) (label : Int) (len pos : Nat) (st : SState Pos) :
+    SState Pos × Except Err (List (Nat × Nat) × List α) :=
+  let chunk1 := (P.drop pos).take len
+  let offset1 := searchsortedLeft (P.map (·.time)) label
+  let offset2 := searchsortedLeft (S.map (·.time)) (label - mi)
+  match maxList (chunk1.map (·.time)) with
+  | none => (st, .ok ([], []))                       -- data1.empty
+  | some tmax =>
+    let chunk2 := locSlice S offset2 (tmax + mi)
+    if chunk2.isEmpty then (st, .ok ([], []))        -- data2.empty
+    else
+      match spatialSearch T shuf mf st (chunk1.map (·.pos)) (chunk2.map (·.pos)) r with
+      | (st', .error e) => (st', .error e)
+      | (st', .ok (pairs, ds)) => (st', .ok (shiftPairs offset1 offset2 pairs, ds))
+
 /-- the loop over the groups of `primary.groupby(pd.Grouper(freq=bin_duration))`:
-`cut` lists `(label, number of rows)` of the consecutive groups, `pos` is the row at
-which the current group starts (content of `chunk1`), while `offset1` is recomputed from
-the label by `searchsorted` exactly as `_bin_pairs` does. -/
+`cut` lists `(label, number of rows)` of the consecutive groups -/
 def binLoop (T : TreeFn Pos α) (shuf : Nat → List Pos → List Nat) (mf : Nat) (mi : Int) (r : α)
     (P S : List (NPt Pos)) :
     List (Int × Nat) → Nat → SState Pos → SState Pos × Except Err (List (Nat × Nat) × List α)
   | [], _, st => (st, .ok ([], []))
   | (label, len) :: rest, pos, st =>
-    let chunk1 := (P.drop pos).take len
-    let offset1 := searchsortedLeft (P.map (·.time)) label
-    let offset2 := searchsortedLeft (S.map (·.time)) (label - mi)
-    let here : SState Pos × Except Err (List (Nat × Nat) × List α) :=
-      match maxList (chunk1.map (·.time)) with
-      | none => (st, .ok ([], []))                       -- data1.empty
-      | some tmax =>
-        let chunk2 := locSlice S offset2 (tmax + mi)
-        if chunk2.isEmpty then (st, .ok ([], []))        -- data2.empty
-        else
-          match spatialSearch T shuf mf st (chunk1.map (·.pos)) (chunk2.map (·.pos)) r with
-          | (st', .error e) => (st', .error e)
-          | (st', .ok (pairs, ds)) => (st', .ok (shiftPairs offset1 offset2 pairs, ds))
-    match here with
+    match binStep T shuf mf mi r P S label len pos st with
     | (st', .error e) => (st', .error e)
     | (st', .ok (pairs, ds)) =>
       match binLoop T shuf mf mi r P S rest (pos + len) st' with
